@@ -45,6 +45,10 @@ def make_input(bodies, starts, long_mask, omit_counts, fam):
             if long_mask[k % len(long_mask)]:
                 text += " " + "long" * 12
             lines.append({"minus": "-", "plus": "+", "zero": " "}[c] + text)
+            # the no-newline marker between a removed line and what follows (English, or as a localised diff prints it):
+            # not a line of either file
+            if c == "minus" and fam[(k + hi) % len(fam)] and long_mask[0] is False and k % 3 == 0:
+                lines.append(["\\ No newline at end of file", "\\ Kein Zeilenumbruch am Dateiende", "\\ Pas de fin de ligne"][k % 3 if k % 2 else 1])
         hunks.append({"so": so, "sn": sn, "cls": body, "ks": ks})
     return ("\n".join(lines) + "\n").encode(), hunks
 
@@ -66,7 +70,8 @@ def run(tier):
     nmax = 5 if tier == "quick" else 6
     bodies = [list(b) for n in range(1, nmax + 1) for b in itertools.product(("minus", "plus", "zero"), repeat=n)]
     jobs = []
-    modes = ["unified", "sbs", "sbs-wrap", "unified-narrow", "sbs-wrap-cross"]
+    # ("moved": the input is coloured as `git diff --color-moved` colours moved lines; delta keeps such lines as they came)
+    modes = ["unified", "sbs", "sbs-wrap", "unified-narrow", "sbs-wrap-cross", "sbs-moved", "unified-moved"]
     for i, body in enumerate(bodies):
         reps = 3 if tier == "quick" else 8
         for rep in range(reps):
@@ -91,8 +96,10 @@ def run(tier):
     jobs.append(EMPTY_JOB)
 
     def args_for(mode, fmt):
-        if mode == "unified":
+        if mode in ("unified", "unified-moved"):
             return gitskin.rs_args(200) + ["--line-numbers"] + FORMATS[fmt]
+        if mode == "sbs-moved":
+            return gitskin.rs_args(220) + ["--side-by-side"]
         if mode == "unified-narrow":
             return gitskin.rs_args(50) + ["--line-numbers"] + FORMATS[fmt]
         if mode == "sbs":
@@ -109,6 +116,16 @@ def run(tier):
             lines = data.split(b"\n")
             lines[6] = b""                       # the second unchanged line becomes an empty line
             data = b"\n".join(lines)
+        if mode.endswith("-moved"):
+            # every second removed / added line in git's colours for moved lines (bold magenta / bold cyan)
+            out = []
+            for n_, ln in enumerate(data.split(b"\n")):
+                if n_ % 2 == 0 and ln[:1] == b"-" and not ln.startswith(b"---"):
+                    ln = b"\x1b[1;35m" + ln + b"\x1b[m"
+                elif n_ % 2 == 0 and ln[:1] == b"+" and not ln.startswith(b"+++"):
+                    ln = b"\x1b[1;36m" + ln + b"\x1b[m"
+                out.append(ln)
+            data = b"\n".join(out)
         return data, hunks, core.run_delta(args_for(mode, fmt), data)
 
     res = core.pmap(one, jobs)
